@@ -88,14 +88,17 @@ CHECKS = {
         "only around non-nullable non-any schemas). keep is part of the specification (read it: 40 lines).",
    ref="DESIGN.md section 4 (C06-C08)"),
  "C01": dict(
-   technique="Coq proof of the output gate (success => every written file parses and is a gofmt fixpoint, no clash of declared names; a broken file is an error) and of the identifier layer (PublicFieldName yields an exported Go identifier) + exhaustive compile matrix of the dialect's feature cells with the real generator and Go toolchain (PARTIAL: type-correctness is enumerated, not proved)",
+   technique="Coq proof of the output gate (success => every written file parses and is a gofmt fixpoint, no clash of declared names; a broken file is an error) of the identifier layer (PublicFieldName yields an exported Go identifier) and of the lexical inertness of template holes (regenerated inventory of every template action with its lexical context, closed by computation; `comment` and name-like values proved inert) + exhaustive compile matrix of the dialect's feature cells with the real generator and Go toolchain (PARTIAL: type-correctness is enumerated, not proved)",
    text="C01_success_is_formatted / C01_broken_is_failure: over the model of Generate's gate (render all, clash check, imports.Process, write) "
         "a success has written exactly the rendered files, each parsing and gofmt-stable, and any unparsable file, name clash or formatting "
         "error is a failure. C01_field_name_is_identifier / C01_field_name_nonempty: the Go name derived from an ASCII spec name is made of "
-        "identifier characters, starts upper-case, and is non-empty iff the name has a letter. Tie: ~3000 one-feature documents (parameter, "
+        "identifier characters, starts upper-case, and is non-empty iff the name has a letter. C01_holes_classified / C01_templates_balanced "
+        "(regenerated from generator/*.gotmpl on every run): free text of the document is written only after `//` and only through `comment`; "
+        "values inside string literals and comments come from the reviewed name-like fields; C01_comment_inert / C01_name_hole_inert: such text "
+        "cannot leave the comment / literal it is written into, whatever it contains. Tie: ~3000 one-feature documents (parameter, "
         "JSON-position, response-header, raw-body, name-shape, text-shape, route, security, status-key cells) and seeded compositions x flag "
         "combinations are generated by the real generator; every success is judged by go/parser, gofmt idempotence, an import check and go build; "
-        "PublicFieldName is compared with the extracted model on seeded names.",
+        "PublicFieldName, the generator's comment function and the translator's lexer are compared with the extracted model on seeded inputs.",
    note="PARTIAL by construction: Go's type system is not formalised; 'the files type-check as one package' is decided cell by cell by the Go "
         "toolchain on the real output. The matrix is finite; compositions are sampled.",
    ref="DESIGN.md section 4 (C01)"),
@@ -112,17 +115,20 @@ CHECKS = {
         "is abstracted: names are compared relative to the operation's generated name; a derivation clash shows as a compile failure (reported).",
    ref="DESIGN.md section 4 (C02)"),
  "C09": dict(
-   technique="Coq proof that the handler's parse of the request built by the client model returns the sent parameter set (all locations, arrays, nullable, $refs; integer text round-trip proved, float/time as oracle hypotheses; body = JSON round-trip theorem) + differential run of the generated client against the generated server of the same package with an independent request validator on the wire",
+   technique="Coq proof that the handler's parse of the request built by the client model returns the sent parameter set (all locations, arrays, nullable, $refs; integer text round-trip proved, float/time as oracle hypotheses; body = JSON round-trip theorem; net/url escaping transcribed and proved to round-trip for every byte string, so the request net/http reconstructs from the URL the client wrote is the one the parameter theorem is about) + differential run of the generated client against the generated server of the same package with an independent request validator on the wire",
    text="C09_params_agree: for every operation declaration, base path and parameter set of the domain the client model builds a request and "
         "parse_request of it is Ok of exactly what was sent (unset optionals unset; each value at its own parameter, using pairwise-distinct "
         "names under the location's key comparison). C09_integer_text: ParseInt(FormatInt z) = z on the whole width. C09_body_agree: "
-        "dec (enc v) = v (the body path is json.Marshal / generated UnmarshalJSON). Tie: the generated client of each corpus package sends "
+        "dec (enc v) = v (the body path is json.Marshal / generated UnmarshalJSON). C09_path_escape_roundtrip / C09_query_escape_roundtrip / "
+        "C09_query_string_roundtrip / C09_path_escape_keeps_structure: unescape(escape s) = s for all byte strings, Encode then Query() returns the "
+        "pairs, an escaped value holds no '/', '?', '#'. C09_wire_path_agrees / C09_wire_query_agrees: URL.Path and URL.Query() lookups of the wire "
+        "URL are the path and the per-name values of the request of C09_params_agree. Tie: the generated client of each corpus package sends "
         "seeded values (reserved URL/header characters, extreme numbers, zoned times, empty optionals, multi-element arrays, JSON and raw "
-        "bodies) into the generated API; the handler's Parse() dump, the request path and the call result are compared with the extracted "
+        "bodies) into the generated API; the handler's Parse() dump, the request URL the client wrote (byte for byte against client_wire) and the call result are compared with the extracted "
         "model and with the sent value; kin-openapi openapi3filter validates the wire request.",
-   note="Float and time formatting/parsing are oracle hypotheses (parse (format x) = x) instantiated from strconv/time. url.PathEscape/"
-        "QueryEscape and header canonicalisation are the transport between client_request and parse_request: checked by the run and the "
-        "independent validator, not by the theorem. Domain restrictions as the property states (DESIGN section 11).",
+   note="Float and time formatting/parsing are oracle hypotheses (parse (format x) = x) instantiated from strconv/time. Model/UrlEscape.v is a transcription of net/url for "
+        "the two modes the generated code reaches, compared with net/url itself on ~6000 inputs per run; header canonicalisation and net/http's "
+        "header handling remain transport checked by the run and the independent validator, not by a theorem. Domain restrictions as the property states (DESIGN section 11).",
    ref="DESIGN.md section 4 (C09)"),
  "C10": dict(
    technique="Coq proof that the client's decoding (status switch, header parsing, body decoding) of what the response's Write method emits returns the same response kind and value, and that an undocumented status reaches the default response or an error + differential run of reflectively built response values through the generated API and client, and of stubbed undocumented status codes",
